@@ -12,4 +12,4 @@ for f in sorted(glob.glob(os.path.join(HERE, "seeded", "*", "meta.json"))):
     cb = m["caught_by"]
     first = "missed" if "MISSED" in cb or "MISSED" in m.get("note", "") or "missed at first" in cb.lower() else ("undecided (exit 2)" if cb.startswith("exit 2") else ("crash of the check (exit 3)" if "script crashed on the mutant" in cb else "caught"))
     esc = lambda s: s.replace("|", "\\|").replace("\n", " ")  # noqa
-    print("| %s | %s | %s | %s | %s |" % (m["seed"], m["property"], esc(m["needs_to_manifest"]), first, esc(cb + ((" - " + m["note"]) if m.get("note") else ""))))
+    print("| %s | %s | %s | %s | %s |" % (m["seed"], m["property"], esc(m["needs_to_manifest"]), first, esc((("SUPERSEDED: " + m["superseded"] + " Before that: ") if m.get("superseded") else "") + cb + ((" - " + m["note"]) if m.get("note") else ""))))
